@@ -110,9 +110,25 @@ class DatagroupSpec:
         ops.append(["update", [[ks[1], kinds[0]], [ks[0], kinds[3 % len(kinds)]]]])
         ops.append(["update_kwargs", [[ks[-1], kinds[2 % len(kinds)]]]])
         ops.append(["ctor_from_dict", [[ks[0], kinds[0]], [ks[1], kinds[1]]]])
+        # the same pairs handed over as other things dict() accepts: a list of pairs and single-pass iterators
+        for form in ("pairs-list", "zip", "generator", "items-view"):
+            ops.append(["update", [[ks[0], kinds[0]], [ks[1], kinds[1]]], form])
+            ops.append(["ctor_from_dict", [[ks[0], kinds[0]], [ks[1], kinds[1]]], form])
         self.ops = ops
         self.keys = ks
         self.ntag = 0
+
+    @staticmethod
+    def as_arg(d, form):
+        if form == "pairs-list":
+            return list(d.items())
+        if form == "zip":
+            return zip(list(d.keys()), list(d.values()))
+        if form == "generator":
+            return ((k, v) for k, v in list(d.items()))
+        if form == "items-view":
+            return d.items()
+        return d
 
     def fresh(self):
         import osyris
@@ -216,7 +232,7 @@ class DatagroupSpec:
                     tags[k] = 1
                     vals[k] = make_value(kind, tags[k])
                 try:
-                    newg = osyris.Datagroup(vals)
+                    newg = osyris.Datagroup(self.as_arg(vals, op[2] if len(op) > 2 else "dict"))
                     impl.obj = g = newg
                     for k, kind in items:
                         model.d[k] = (kind, tags[k])
@@ -254,7 +270,7 @@ class DatagroupSpec:
                             break
                         m2.d[k] = (kind, tag)
                     try:
-                        g.update(d)
+                        g.update(self.as_arg(d, op[2] if len(op) > 2 else "dict"))
                         got = "accept"
                     except ValueError:
                         got = "reject"
